@@ -369,4 +369,14 @@ def corpus_descs():
                  cc.param("tail", dict(k="value", dop=u8(), dflt=None))], False,
                 [{"len": 0, "blob": b"", "tail": 1}, {"len": 0, "blob": b"xyz", "tail": 1}, {"len": 8, "blob": b"xyz", "tail": 1},
                  {"len": 24, "blob": b"xyz", "tail": 1}, {"len": 32, "blob": b"xyz", "tail": 1}, {"blob": b"xyz", "tail": 1}]))
+    # an END-OF-PDU-FIELD whose items are multiplexers laid over their own key (BYTE-POSITION 0): the case for key 1 holds a
+    # byte behind the key, the case for key 2 is empty and leaves the cursor where the item began -- a LATER item which
+    # makes no progress must end decoding with an error, not loop
+    mx0 = dict(k="mux", bp=0, kb=0, kbit=0, key=cc.simple(cc.std(cc.BUINT, 8)),
+               cases=[dict(name="c1", lo=1, hi=1, s=cc.struct([cc.param("d", dict(k="value", dop=u8(), dflt=None), 1)])),
+                      dict(name="c2", lo=2, hi=2, s=cc.struct([]))], dflt=None)
+    out.append(([cc.param("sid", dict(k="coded", dct=cc.std(cc.BUINT, 8), v=0x22)),
+                 cc.param("f", dict(k="value", dop=dict(k="eop", s=cc.struct([cc.param("m", dict(k="value", dop=mx0, dflt=None))])), dflt=None))],
+                False, [{"f": [{"m": ["c1", {"d": 0x5A}]}]}, {"f": []}],
+                [bytes.fromhex(h) for h in ("22015a02", "2202", "22015a015b", "22015a0201", "2203")]))
     return out
